@@ -198,10 +198,40 @@ def run(run: Run):
     run.run_audit()
     specs = gen_specs(run)
     sessions.run_sessions(run, specs, oracle, relevant=1 | 4 | 8 | 16 | 64 | 256)
+    # altering the NUMBER of rounds to anything at all must give an error in both build profiles: counts around the width of usize
+    # (a shift by the round count is evaluated before it is compared), alone and inside a batch, copies of the proof's own (L, R) as filling
+    rng = run.rng
+    rspecs = []
+    for i, (b, m, T) in enumerate([(64, 1, 1), (2, 1, 2), (8, 2, 1)] if run.tier == "quick" else [(64, 1, 1), (2, 1, 2), (8, 2, 1), (32, 2, 3), (1, 2, 1), (16, 4, 2)]):
+        mem = gen.mk_member(rng, b, m, cap=m, T=T)
+        other = gen.mk_member(rng, b, m, cap=m, T=T)
+        k = (b * m).bit_length() - 1
+        counts = [0, 1, k - 1, k + 1, 31, 32, 33, 62, 63, 64, 65, 66, 127, 128, 129, k + 64]
+        counts = [c for c in sorted(set(counts)) if c >= 0 and c != k]
+        derived, verifies, tags = [], [], []
+        for c in counts:
+            ops = [{"op": "dup_round", "idx": 0} for _ in range(max(0, c - k))] + [{"op": "drop_round", "idx": 0} for _ in range(max(0, k - c))]
+            derived.append({"from": 0, "ops": ops})
+            verifies.append({"mode": rng.choice(["VerifyOnly", "RecoverAndVerify"]), "vmembers": [gen.vmember(mem, 2 + len(derived) - 1)], "log": False})
+            tags.append((c, "alone"))
+            verifies.append({"mode": "VerifyOnly", "vmembers": [gen.vmember(other, 1), gen.vmember(mem, 2 + len(derived) - 1)], "log": False})
+            tags.append((c, "second of two"))
+        rspecs.append({"id": f"c05-rounds-{i}", "group": "fm", "members": [mem, other], "derived": derived, "verifies": verifies, "_tags": tags, "_conf": [b, m, T],
+                       "with_gens": False, "log_merlin": False, "log_msm": False})
+    for profile in ("release", "debug"):
+        for sp, o in zip(rspecs, run_harness(["session"], [sessions.strip(x) for x in rspecs], profile=profile, jobs=len(rspecs))):
+            b, m, T = sp["_conf"]
+            for vi, ((c, where), vo) in enumerate(zip(sp["_tags"], o["verifies"])):
+                res = vo["result"]
+                run.count(["c05rounds", profile, b, m, T, min(c, 130) // 16, where, res.split(":")[0]], {"profile": profile, "bits": b, "m": m, "T": T, "rounds_altered_to": c, "where": where, "result": res[:60]})
+                run.bump("round-count alterations")
+                if res == "ok" or res.startswith("panic"):
+                    run.violation(f"altered triple {'ACCEPTED' if res == 'ok' else 'made verification PANIC'}: number of (L, R) pairs changed to {c} ({where}; {profile} build; bits={b}, m={m}, T={T}): {res[:120]}",
+                                  {"kind": "session", "spec": sessions.strip(sp), "verify": vi, "profile": profile})
     return run.finish(
         "proof",
         "for accepted triples on the lattice, every position is altered: each of the 2+T scalars (four replacement kinds), each of the 3+2k points (junk, "
-        "identity, undecodable, copy of another point, plus a generator), the round structure (drop / duplicate / swap), the extension tag and d1 length, every "
+        "identity, undecodable, copy of another point, plus a generator), the round structure (drop / duplicate / swap; the NUMBER of rounds altered to 0..k+64 in release and debug builds), the extension tag and d1 length, every "
         "commitment (three kinds), the commitment order, every promise (+1, -1, 0, max, None), the bit length, H, every Gb_k and the context; each must be an "
         "error (never Ok, never a panic) and None<->Some(0) must stay accepted; free-module and Ristretto back ends; distinct by (bits, m, T, group, alteration, outcome)",
         ["alterations whose bytes no longer decode are counted as rejected at decoding (C15 decides those)"],
